@@ -9,6 +9,7 @@ require (
 	github.com/prometheus/client_model v0.6.1
 	github.com/spf13/pflag v1.0.5
 	github.com/stretchr/testify v1.9.0
+	go.uber.org/goleak v1.3.0
 )
 
 require (
